@@ -42,6 +42,8 @@ CONDS = [
     Cond('week_parse_order_ok', 'the real parse_value is strictly monotone from (year, week) to its result: a genuine week 53 against six '
          'symbolic digits', 'week-53 years 1200..9999 by index, other year 1000..9999, week 01..52', timeout={'quick': 90, 'thorough': 900},
          parts={'quick': 2, 'thorough': 8}),
+    Cond('parse_week53_ok', 'the region parse_shape_ok excludes: <year>-W53 through parse_value for the years of the recorded finding '
+         '(prints the KNOWN-FINDING line; the string parser adds nothing to it)', 'four symbolic year digits', timeout={'quick': 40, 'thorough': 60}, twin=False),
     Cond('number_range_ok', ':in-range / :out-of-range for number/range inputs == numeric order; validity == HTML '
          'valid floating-point number (incl. exponent, leading dot; not "1.", "+1", " 1")',
          'min, max, value from pools of 28 / 18 / 18 spellings (enumerated by symbolic index)',
